@@ -166,6 +166,10 @@ func (c *Candidates) SetDeletedCandidates(list []types.DeletedCandidate) {
 			PybKey:  deleted.PubKey,
 			isDirty: true,
 		}
+		// ids are never reused: the next candidate gets an id above those of removed candidates as well
+		if c.maxID < uint32(deleted.ID) {
+			c.maxID = uint32(deleted.ID)
+		}
 	}
 }
 
